@@ -69,6 +69,12 @@ pub fn menu() -> Vec<Op> {
             }));
         }
     }
+    // every remaining constructor once, as a requirement
+    for (ctor, name, ver) in [("eq", "dep-eq", "2.0"), ("less_eq", "dep-le", "0:1~rc1"), ("greater", "dep-gt", "3^post"), ("script_pre", "/bin/pre", ""), ("script_post", "/bin/post", ""), ("script_preun", "/bin/preun", ""), ("script_postun", "/bin/postun", ""), ("rpmlib", "CustomFeature", "1.0-1"), ("config", "cfgpkg", "1.0-1")] {
+        m.push(op(format!("requires({} {} {})", ctor, name, ver), move |s| {
+            s.deps.entry("requires").or_default().push(DepSpec { ctor, name: name.to_string(), version: ver.to_string() });
+        }));
+    }
     // the same dependencies the builder derives from non-root file owners, given by hand
     for (ctor, name) in [("user", "u1"), ("group", "g1"), ("user", "u2")] {
         m.push(op(format!("recommends({}({}))", ctor, name), move |s| {
